@@ -66,6 +66,7 @@ POOLS = [
     ["__b", "_a0", "x", "__"],
     [0, "a", ("x", 1), -3],
     ["_a0", 1, "__b", ("__a",)],
+    ["x__a0", ("__a1", 0), "q__a12b", "a__a"],      # contain, but do not start with, an ancilla-like name
     [3, 1, 4, 15],
     [("x", 0), ("x", 1), "z", 2],
 ]
